@@ -627,6 +627,17 @@ func (g *dgen) method(svc *spec.Service, idx int) *spec.Method {
 		}
 		m.Responses = []*spec.Response{{Status: 200}}
 		g.feat("result:result-type")
+		if g.chance("result-collection", "views", 1, 2, 6) {
+			m.Collection = true // CollectionOf(u): every element rendered with the chosen view
+			g.feat("result:collection")
+			if m.FixedView == "" && len(u.Views) > 1 && t.Draw("collection-fixed-view", 2) == 0 {
+				m.FixedView = u.Views[t.Draw("which-view", len(u.Views))].Name
+				g.feat("views:fixed")
+			}
+			if m.FixedView != "" {
+				g.feat("result:collection-fixed-view:" + m.FixedView)
+			}
+		}
 	} else if t.Draw("result-not-an-object", 8) == 0 {
 		m.Result = g.nonObject("result")
 		m.Responses = []*spec.Response{{Status: []int{200, 201, 202}[t.Pick("status", 4, 1, 1)]}}
